@@ -65,6 +65,11 @@ type ReqPlan struct {
 	// per-request timeouts carried by the request itself (x-mosn-global-timeout / bolt timeout field, x-mosn-try-timeout)
 	TimeoutMs int `json:"to,omitempty"`
 	TryMs     int `json:"tt,omitempty"`
+	// TermUs > 0 (setups with the deadline filter): the listener's deadline filter ends the request through
+	// StreamReceiverFilterHandler.TerminateStream(TermCode) this many microseconds after it saw it - one more way
+	// for a request to end ("on every path")
+	TermUs   int `json:"du,omitempty"`
+	TermCode int `json:"dc,omitempty"`
 
 	hold chan struct{} // the hold epoch the request was registered in (see addPlan)
 }
@@ -87,6 +92,8 @@ type Setup struct {
 	TryMs      int       `json:"try_ms,omitempty"`
 	RetryOn    bool      `json:"retry_on,omitempty"`
 	NumRetries int       `json:"num_retries,omitempty"`
+	// Deadline: the listener runs the deadline stream filter (deadline_test.go)
+	Deadline bool `json:"deadline,omitempty"`
 }
 
 const (
@@ -200,6 +207,9 @@ func newRig(t ev.TB, part string, su Setup) (r *rig, err error) {
 		// protocol-convert cases are (without it every request is answered 500)
 		down, up = "Http1", "Http2"
 		filters = []v2.Filter{{Type: "transcoder", Config: map[string]interface{}{"type": "httpTohttp2"}}}
+	}
+	if su.Deadline {
+		filters = append([]v2.Filter{{Type: deadlineFilterType, Config: map[string]interface{}{}}}, filters...)
 	}
 	c, err := mesh.NewCase(mesh.Opts{Down: down, Up: up, Hosts: r.addrs, StreamFilters: filters,
 		Timeout: time.Duration(su.GlobalMs) * time.Millisecond, Retry: retry,
@@ -820,6 +830,9 @@ func h1Once(c *mesh.H1Client, rp *ReqPlan, wait time.Duration) outcome {
 	if rp.TryMs > 0 {
 		hdr = append(hdr, [2]string{types.HeaderTryTimeout, fmt.Sprint(rp.TryMs)})
 	}
+	if rp.TermUs > 0 {
+		hdr = append(hdr, [2]string{deadlineHeader, fmt.Sprintf("%d:%d", rp.TermUs, rp.TermCode)})
+	}
 	if err := c.Send(mesh.RawRequest(method, "/c10/"+rp.Tok, "c10.test", hdr, body, false)); err != nil {
 		return outcome{Status: -1, Closed: true}
 	}
@@ -849,6 +862,9 @@ func boltReq(id uint32, rp *ReqPlan) []byte {
 	var extra []codec.KV
 	if rp.TryMs > 0 {
 		extra = append(extra, codec.KV{K: []byte(types.HeaderTryTimeout), V: []byte(fmt.Sprint(rp.TryMs))})
+	}
+	if rp.TermUs > 0 {
+		extra = append(extra, codec.KV{K: []byte(deadlineHeader), V: []byte(fmt.Sprintf("%d:%d", rp.TermUs, rp.TermCode))})
 	}
 	return mesh.XRequest("bolt", id, rp.Tok, b, uint32(rp.TimeoutMs), extra...)
 }
